@@ -124,6 +124,16 @@ def rand_start(rng, kind):
 def cases(tier, seed):
     for c in corner_cases():
         yield c
+    for shape in DATA_SHAPES:
+        for form in ("single", "compose", "sequence", "combine"):
+            yield {"k": "shapes", "shape": shape, "form": form}
+    for head in ("iter", "list"):
+        for n in (2, 3):
+            for shared in (1, 0):
+                for order in (0, 1):
+                    for ctx in (0, 1):
+                        yield {"k": "stateful", "head": head, "n": n, "shared": shared,
+                               "order": order, "ctx": ctx, "data": [7.5, 1.0, 9.0, 2.5]}
     for c in history_cases(tier, seed):
         yield c
     for i in range(NCASES[tier]):
@@ -629,11 +639,178 @@ _reported = {}
 MAX_PER_MECH = 4   # the worker keeps at most 200 violations: one mechanism must not fill it
 
 
+# ------------------------------------------------------------------ data of every shape
+DATA_SHAPES = ["list-with-dict-second", "list-of-two", "deque-with-dict-second", "generator",
+               "iterator-of-two-with-dict", "dict", "string-of-two", "triple", "set",
+               "list-with-dict-second-in-context"]
+
+
+def mk_shaped(shape):
+    """-> (value, data object, snapshot function of the data)."""
+    import collections
+    inner = {"pt": 3.5, "tags": [1]}
+    if shape in ("list-with-dict-second", "list-with-dict-second-in-context"):
+        d = ["mu", inner]
+    elif shape == "list-of-two":
+        d = [3, 4]
+    elif shape == "deque-with-dict-second":
+        d = collections.deque(["mu", inner])
+    elif shape == "generator":
+        d = (i * i for i in range(5))
+    elif shape == "iterator-of-two-with-dict":
+        d = iter(["mu", inner])
+    elif shape == "dict":
+        d = {"a": 1, "b": inner}
+    elif shape == "string-of-two":
+        d = "ab"
+    elif shape == "triple":
+        d = (1, {"x": 1}, 2)
+    elif shape == "set":
+        d = frozenset([1, 2])
+    else:
+        raise ValueError(shape)
+    value = (d, {"i": 1}) if shape.endswith("in-context") else d
+    return value, d, inner
+
+
+class Describe(object):
+    """Getter that reports what it was given: the type of the data and all of its items."""
+
+    def __call__(self, d):
+        if isinstance(d, (str, dict, frozenset)):
+            return (type(d).__name__, gen.freeze(d) if not isinstance(d, frozenset) else sorted(d))
+        try:
+            items = list(d)
+        except TypeError:
+            return (type(d).__name__, d)
+        return (type(d).__name__, gen.freeze(items))
+
+
+def run_shapes(r, obs):
+    """A value without context whose data is some container / iterator: the data is the value
+    itself; the getter receives it whole and untouched, nothing inside it becomes context."""
+    import lena.core
+    import lena.variables
+    obs.nontrivial = True
+    shape, form = r["shape"], r["form"]
+    describe = Describe()
+    _, ref_d, _ = mk_shaped(shape)
+    expected = describe(ref_d)
+    value, d, inner = mk_shaped(shape)
+    inner_before = copy.deepcopy(inner)
+    v1 = lena.variables.Variable("what", describe, type="probe")
+    ident = lena.variables.Variable("same", lambda x: x, type="identity")
+    if form == "single":
+        res = v1(value)
+        exp_data = expected
+    elif form == "compose":
+        res = lena.variables.Compose(ident, v1)(value)
+        exp_data = expected
+    elif form == "sequence":
+        out = list(lena.core.Sequence(ident, v1).run(iter([value])))
+        res = out[0] if len(out) == 1 else None
+        exp_data = expected
+    else:
+        res = lena.variables.Combine(v1, lena.variables.Variable("n", lambda x: 1))(value)
+        exp_data = (expected, 1)
+    obs.count("shaped_data_applications")
+    if not (isinstance(res, tuple) and len(res) == 2 and isinstance(res[1], dict)):
+        obs.fail("result-not-data-context-pair:shaped-data",
+                 "%s applied to data of shape %s returned %r" % (form, shape, res))
+        return
+    obs.check(res[0] == exp_data, "data-differs-from-nested-getters:shaped-data:" + (
+        "iterator" if "iterator" in shape or shape == "generator" else "container"),
+              "%s applied to a value without context whose data is %s: data %r, the getter "
+              "applied to the whole data gives %r" % (form, shape, res[0], exp_data))
+    rest = {k: w for k, w in res[1].items() if k != "variable"}
+    exp_rest = {"i": 1} if shape.endswith("in-context") else {}
+    obs.check(rest == exp_rest, "context-outside-variable-changed:shaped-data",
+              "%s applied to data of shape %s: context %r has keys besides 'variable' "
+              "(expected %r)" % (form, shape, res[1], exp_rest))
+    obs.check(inner == inner_before, "input-data-changed:shaped-data",
+              "%s applied to data of shape %s changed the dictionary inside the data from %r "
+              "to %r" % (form, shape, inner_before, inner))
+
+
+class FreshIter(object):
+    """Getter returning a fresh one-shot iterator over the sorted data."""
+
+    def __call__(self, d):
+        return iter(sorted(d, reverse=True))
+
+
+class FreshList(object):
+    def __call__(self, d):
+        return sorted(d)
+
+
+def _take(it):
+    return next(it)
+
+
+def _total(it):
+    return sum(it)
+
+
+def _pop(lst):
+    return lst.pop()
+
+
+def _length(lst):
+    return len(lst)
+
+
+def run_stateful(r, obs):
+    """Getters whose result is a fresh stateful object (a one-shot iterator, a new list that the
+    next getter consumes): every composed chain works on the result of ITS OWN application of
+    the first getter, as the Sequences of the same variables do."""
+    import lena.core
+    import lena.variables
+    V = lena.variables.Variable
+    obs.nontrivial = True
+    data = tuple(r["data"])
+    if r["head"] == "iter":
+        mk_head = lambda: V("tracks", FreshIter(), type="particle")
+        tails = [("leading", _take), ("rest", _total), ("rest2", _total)]
+    else:
+        mk_head = lambda: V("hits", FreshList(), type="particle")
+        tails = [("last", _pop), ("n", _length), ("last2", _pop)]
+    tails = tails[:r["n"]]
+    if r["order"]:
+        tails = tails[::-1]
+    head = mk_head()
+    heads = [head if r["shared"] else mk_head() for _ in tails]
+    chains = [lena.variables.Compose(h, V(nm, f, type="t_" + nm))
+              for h, (nm, f) in zip(heads, tails)]
+    comb = lena.variables.Combine(*chains)
+    exp = []
+    for nm, f in tails:
+        seq = lena.core.Sequence(mk_head(), V(nm, f, type="t_" + nm))
+        out = list(seq.run(iter([data])))
+        exp.append(out[0][0])
+    exp = tuple(exp)
+    for rep in range(2):
+        res = comb(data if not r["ctx"] else (data, {"i": rep}))
+        obs.count("stateful_getter_applications")
+        if not (isinstance(res, tuple) and len(res) == 2):
+            obs.fail("result-not-data-context-pair:stateful-getters", "Combine returned %r" % (res,))
+            return
+        obs.check(res[0] == exp, "combine-data-not-tuple-of-getters:stateful-getter-results",
+                  "Combine of %d Compose(head, tail) variables (%s first variable object, head "
+                  "getter returns a fresh %s) on %r gives %r, the Sequences of the same variables "
+                  "give %r" % (len(tails), "one shared" if r["shared"] else "separate",
+                               "iterator" if r["head"] == "iter" else "list", data, res[0], exp))
+
+
 def run_case(r, obs):
     del CONSTRUCTION_CHANGES[:]
     try:
         if r["k"] == "chain":
             run_chain(r, obs)
+        elif r["k"] == "shapes":
+            run_shapes(r, obs)
+        elif r["k"] == "stateful":
+            run_stateful(r, obs)
         elif r["k"] == "reuse":
             run_reuse(r, obs)
         elif r["k"] == "attrs":
@@ -656,3 +833,7 @@ def run_case(r, obs):
 
 
 RULE += (' Added: one mutable data object refilled in place between applications of a Compose; attribute changes between applications (assignment, var_context, in-place list change).')
+RULE += (' Added: values without context whose data is a list / deque / iterator / generator / dict '
+         '/ string (a 2-item list with a dict second among them) through Variable, Compose, '
+         'Sequence and Combine; Combine of Compose variables that share their first variable '
+         'object and whose getters return fresh iterators / lists consumed by the next getter.')
